@@ -3,7 +3,8 @@ Props/C08Assign — Rock Ridge fidelity of one record, for every name and every 
 `rrNew` is the model of `RockRidge.new` (tied to rockridge.py by the S-fn grid of harness/props/c08.py).  Whatever the
 version, the room left in the directory record, the flags (first record, CL/RE/PL) and whether a continuation entry is
 needed: the NM entries read in order give back the name, the SL entries give back the link target, and a record
-without a link carries no SL component.
+without a link carries no SL component.  The first layout pass (no continuation entry) puts nothing into the
+continuation area (`assign_noCE`, `newSymlink_noCE`), so what is recorded is all there is.
 -/
 import Pycdlib.Proofs.Assign
 namespace Pycdlib.Susp
@@ -19,7 +20,10 @@ theorem rrNew_records (first : Bool) (ver : Ver) (name : Bytes) (target : Option
   | some a =>
     simp only [h1, Option.some.injEq] at h
     subst h
-    exact assign_records _ _ _ _ _ _ _ _ _ _ h1
+    have hce := assign_noCE _ _ _ _ _ _ _ _ _ h1
+    have := assign_records _ _ _ _ _ _ _ _ _ _ h1
+    simp only [hce] at this
+    exact this
   | none =>
     simp only [h1] at h
     cases h2 : assign true first ver name target cl re pl (cur + 28) with
